@@ -214,6 +214,26 @@ def run_driver(pid, main):
         traceback.print_exc()
         tb = traceback.extract_tb(ex.__traceback__)
         where = tb[-1].filename if tb else ''
+        # who raised: going outward from the innermost frame, the first frame that belongs to the library or to the harness
+        # (frames of numpy / the standard library in between were called by one of the two).  Exceptions that come back
+        # from a worker process carry their frames as text.
+        import re as _re
+        frames = [(f.filename, f.lineno, f.name) for f in tb]
+        remote = getattr(ex, '__cause__', None)
+        if remote is not None and hasattr(remote, 'tb'):
+            frames += [(m.group(1), int(m.group(2)), m.group(3)) for m in _re.finditer(r'File "([^"]+)", line (\d+), in (\S+)', remote.tb)]
+        lib, here = os.path.realpath(REPO) + os.sep, os.path.realpath(os.path.dirname(os.path.abspath(__file__))) + os.sep
+        owner = None
+        for fn, ln, nm in reversed(frames):
+            rp = os.path.realpath(fn)
+            if rp.startswith(lib):
+                owner = (fn, ln, nm)
+                break
+            if rp.startswith(here):
+                break
+        if owner is not None:
+            where = owner[0]
+            tb = [type('F', (), {'filename': owner[0], 'lineno': owner[1], 'name': owner[2]})()]
         if os.path.realpath(where).startswith(os.path.realpath(REPO) + os.sep):
             # the LIBRARY raised on an input of this check on which it does not raise on the tree the check was built
             # against (a step of the harness that is not individually guarded): a behaviour change of the library, not a
